@@ -44,4 +44,20 @@ REVIEWED = {
         "inside size_items, and (D9 repair) every item size divisible by 4 BEFORE the next item's header is read "
         "(C16 rule R2-validation-clauses requires these clauses)",
 }
+REVIEWED.update({
+    # relative_size_of_mult::<u8, i32>(x) asserts x % 4 == 0 (precondition instantiated per call site)
+    'libtw2_datafile::raw::Reader::new | precondition | libtw2_common::slice::relative_size_of_mult | 0':
+        "x = header.hr.size_items: HeaderRest::check rejects `size_items % 4 != 0` (clause required by C16 R2a) before the items are read",
+    'libtw2_datafile::raw::Reader::item_header | precondition | libtw2_common::slice::relative_size_of_mult | 0':
+        "x = item_offsets[index]: Reader::check makes offsets start at 0 and advance by 8 + size with every size divisible by 4 "
+        "(the D9 repair; clause `item size divisible by 4` required by C16 R2a), and check() itself reads item i+1's header only "
+        "after item i's size passed that test",
+    'libtw2_datafile::raw::Reader::item | precondition | libtw2_common::slice::relative_size_of_mult | 0':
+        "x = item_offsets[index] (same as item_header)",
+    'libtw2_datafile::raw::Reader::item | precondition | libtw2_common::slice::relative_size_of_mult | 1':
+        "x = item_header.size of a reader that passed check(): divisible by 4 by the clause `item size divisible by 4`",
+    'libtw2_common::slice::relative_size_of | precondition | libtw2_common::slice::relative_size_of_mult | 0':
+        "generic helper relative_size_of::<T, U>() = relative_size_of_mult(1): only instantiated with size_of::<T>() a multiple of "
+        "size_of::<U>() (map item structs over i32)",
+})
 SUSPECT = {}
